@@ -369,8 +369,14 @@ func parseArgList(args []IntrospectionInputValue) ast.ArgumentDefinitionList {
 }
 
 func parseTypeRef(response *IntrospectionTypeRef) *ast.Type {
+	// a malformed reference (NON_NULL or LIST without ofType) becomes a nameless type,
+	// which the final schema validation reports as an error
+	if response == nil {
+		return ast.NamedType("", &ast.Position{})
+	}
+
 	// we could have a non-null list of a field
-	if response.Kind == "NON_NULL" && response.OfType.Kind == "LIST" {
+	if response.Kind == "NON_NULL" && response.OfType != nil && response.OfType.Kind == "LIST" {
 		return ast.NonNullListType(parseTypeRef(response.OfType.OfType), &ast.Position{})
 	}
 
@@ -380,7 +386,7 @@ func parseTypeRef(response *IntrospectionTypeRef) *ast.Type {
 	}
 
 	// we could have just a non null
-	if response.Kind == "NON_NULL" {
+	if response.Kind == "NON_NULL" && response.OfType != nil {
 		return ast.NonNullNamedType(response.OfType.Name, &ast.Position{})
 	}
 
